@@ -808,6 +808,9 @@ func constants() []constant {
 		{rx("a"), "regex", false}, {rx("a.c"), "regex", false}, {rx("a/b"), "regex-slash", false}, {rx(`a\.b`), "regex-backslash", false},
 		{rx("^a$"), "regex", false}, {rx("[a-c]+"), "regex-class", false}, {rx("(a|b)"), "regex-group", false}, {rx("a'b"), "regex-quote", false},
 		{rx(""), "regex-empty", false}, {rx(`\/`), "regex-escaped-slash", false},
+		// backslashes in front of the delimiter, even and odd runs: only an odd run escapes it
+		{rx(`a\\/b`), "regex-backslash-backslash-slash", false}, {rx(`a\\\/b`), "regex-three-backslashes-slash", false},
+		{rx(`\\`), "regex-backslash-last", false}, {rx(`/`), "regex-slash-only", false}, {rx(`a/b/c`), "regex-two-slashes", false},
 		{l(), "list-empty", false}, {l(int64(1)), "list", false}, {l(int64(1), "a"), "list", false}, {l(1.5, true, nil), "list", false},
 		{l("a'b", `c\d`), "list-string-escapes", false}, {l(l(int64(1))), "list-nested", false}, {l(int64(-1), -2.5), "list-negative", false},
 		{l(1.0), "list-float-integral", false}, {l(int64(1), "a"), "list-go-int", true}, {l(scriptref.Nothing{}), "list-nothing", false},
